@@ -392,6 +392,11 @@ def run(check: Check) -> None:
     from .common import who_may_write
 
     who_may_write(check, "V3", "_value", {"Variable.value.setter"}, "a batch and its rows must be range-locked by the same code")
+    # in-place updates reach other holders of an array but never those of a (immutable) numpy number: with them the two modes differ
+    from .c13 import inplace_updates, no_inplace_on_handed_values
+
+    inplace_updates(check)
+    no_inplace_on_handed_values(check, ["Engine.process"])
 
 
 def cross_row_fixture(check: Check) -> None:
